@@ -314,12 +314,41 @@ def run_shard(ctx):
             one(ctx, case, tmpdir)
             if ctx.phase_over(0.65):
                 break
+        if ctx.shard in (8, 14) or ctx.tier == "thorough":
+            main_thread_returns(ctx, tmpdir)
         systematic(ctx, conf, tmpdir)
         if ctx.shard == 2 or (ctx.tier == "thorough" and ctx.shard < 6):
             marathons(ctx, tmpdir)
         stress(ctx, conf, tmpdir)
     finally:
         shutil.rmtree(tmpdir, ignore_errors=True)
+
+
+def main_thread_returns(ctx, tmpdir):
+    """the program's main thread returns right after start_all(): the observers still process every detection"""
+    rng = ctx.rng("main-returns")
+    case = P.random_pipeline_case(rng, max_windows=40)
+    case.update(uc=None if case["channels"] == 1 else case["uc"])
+    case["v"] = (list(case["v"]) or [1, 1, 0]) * 3
+    case["v"] = case["v"][:60] + [1, 1, 1]
+    case["partial"] = 0
+    case.pop("hop", None)
+    built = AC.build_audio(case)
+    if built is None:
+        return
+    data, _ = built
+    expected = P.split_reference(data, case)
+    res = P.run_main_returns_child(case, data, tmpdir)
+    if "inconclusive" in res:
+        ctx.count("inconclusive_runs")
+        return
+    ctx.count("programs_whose_main_thread_returned_after_start_all")
+    ctx.case(stable_hash(["main-returns", P.case_json(case)["v"], case["rate"]]), bool(expected))
+    lines = [ln.split() for ln in res["stdout"].splitlines() if ln.strip()]
+    want = [[str(i), "%.3f" % s, "%.3f" % e] for i, s, e, _ in expected]
+    if res["rc"] != 0 or lines != want:
+        ctx.violation("detections-lost-when-the-main-thread-returns-after-start_all",
+                      {"case": P.case_json(case), "exit_status": res["rc"], "printed": lines[:10], "expected": want[:10], "stderr": res["stderr"][-300:]})
 
 
 def replay(ctx, case):
@@ -334,7 +363,7 @@ def inconclusive(merged, tier):
     c = merged["counters"]
     need = ["scheduled_runs", "messages_checked", "timeouts_fired", "context_switches", "line_mode_runs", "instruction_mode_runs", "all_module_line_mode_runs", "line_preemptions",
             "stress_runs", "stress_messages_checked", "systematic_schedules", "systematic_pipelines_fully_enumerated", "observers_checked_rec", "observers_checked_print",
-            "observers_checked_regionsaver", "observers_checked_joiner", "runs_with_stream_saver", "runs_over_an_overlapping_reader", "runs_with_long_bursts_of_detections", "runs_with_a_logger", "observers_that_died_mid_stream", "runs_with_a_failing_close", "runs_started_tokenizer_first", "runs_with_blocking_observer_waits", "runs_with_a_command_observer", "timeout_marathon_runs", "runs_with_more_than_10000_detections"] + ["strategy_" + s for s in P.S.NAMES]
+            "observers_checked_regionsaver", "observers_checked_joiner", "runs_with_stream_saver", "programs_whose_main_thread_returned_after_start_all", "runs_over_an_overlapping_reader", "runs_with_long_bursts_of_detections", "runs_with_a_logger", "observers_that_died_mid_stream", "runs_with_a_failing_close", "runs_started_tokenizer_first", "runs_with_blocking_observer_waits", "runs_with_a_command_observer", "timeout_marathon_runs", "runs_with_more_than_10000_detections"] + ["strategy_" + s for s in P.S.NAMES]
     out = [f"monitor never observed {k}" for k in need if c.get(k, 0) == 0]
     if c.get("inconclusive_runs", 0) > max(3, c.get("scheduled_runs", 0) // 50):
         out.append(f"{c['inconclusive_runs']} runs hit a step/wall cap")
